@@ -12,6 +12,7 @@ PLAN = dict(
     runs=[
         dict(name="exh", run="^(TestExhaustive|TestCorpus)$", timeout=(300, 3600)),
         dict(name="rapid", run="^TestPropRoundTrip$", checks=(10000, 500000), shards=(2, 16), timeout=(300, 3600)),
+        dict(name="conc", run="^TestConcRoundTrip$", checks=(150, 5000), shards=(1, 4), timeout=(300, 3600), race=True),
     ],
     technique="exhaustive enumeration of small record sizes x all payload lengths 0..3rs+2 + rapid-generated record sizes 1..16384 / lengths around multiples up to 256 KiB, differential against an independent recursive MICE implementation, then decode round trip",
     level_text=("Exhaustive over drafts x small record sizes x every payload length up to three records plus two octets (all residues, exact multiples, "
